@@ -11,6 +11,11 @@ from r_quota import type_guards
 QOS = "core::base_types::QoS"
 
 
+def strip_generics_(p):
+    from mir import strip_generics
+    return strip_generics(p)
+
+
 def key_table(ctx, fn_regex, adt):
     """{(variant, qos|None): {'tag':(value,shift), 'id':(field,variant,shift)|None, 'bb':..}}"""
     b = ctx.body(fn_regex)
@@ -131,6 +136,26 @@ def lookup(ctx):
             if a[0] == "call" and a[1].endswith("VecDeque::remove"):
                 removes = True
         has_search = any(c.endswith("linear_search_by_key") for c in calls)
+        # search + removal packaged in a local helper `h(&mut deque, key)`
+        for c in calls:
+            hb = ctx.world.body(c) if ctx.facts.fn(c) else None
+            if hb is None:
+                for f_ in ctx.facts.fns:
+                    if strip_generics_(f_["path"]) == c and f_["kind"] == "fn":
+                        hb = ctx.world.body(f_["path"])
+            if hb is None or hb.fn["kind"] != "fn" or hb.fn["arg_count"] != 2:
+                continue
+            inner = effects(ctx.world, hb, 2)
+            rm = [x for x in inner if x.kind == "Remove" and x.detail["how"] == "keyed"]
+            srch = [t for i, t in hb.calls(r"linear_search_by_key$")]
+            if rm and srch:
+                from effects import _collect_env_idx
+                i0, i1 = set(), set()
+                _collect_env_idx(hb, srch[0]["ops"][0], i0, set())
+                _collect_env_idx(hb, srch[0]["ops"][1], i1, set())
+                if i0 == {0} and i1 == {1}:
+                    removes = True
+                    has_search = True
         has_key = any(c.endswith("rx_action_id") for c in calls)
         ok = e.detail["variant"] == "Ok" and fields == {"awaiting_ack"} and removes and has_search and has_key
         # same packet: base local of rx_action_id's argument == base local of the payload
